@@ -10,8 +10,7 @@ export Verif.Model.DataURI (dataURI parseDataURI mediatype b64enc b64dec encodeU
 end M
 namespace S
 export Verif.Spec.Rfc2397 (rfcParse mtNorm holdsDataURI specMediatype specMediatypeOK quotesClosed
-  trigPlus trigParamNoType trigB64Item trigTextPlainPrefix trigQuoteShift trigBackslash pctDecode b64Decode
-  validlyEncoded)
+  trigPlus trigParamNoType trigB64Item pctDecode b64Decode validlyEncoded)
 end S
 
 def cb (l : List Char) : Bytes := charsToBytes l
@@ -31,12 +30,11 @@ def datauri : Handler := fun args => do
   | none => .ok (listReply [cb out, boolBytes false, [], []])
   | some (mt, d) => .ok (listReply [cb out, boolBytes true, cb mt, cb d])
 
-/-- `spec.c18.rfc u` → `[ok, media type text, normal form, data, trigPlus trigParamNoType trigB64Item trigTextPlainPrefix,
+/-- `spec.c18.rfc u` → `[ok, media type text, normal form, data, trigPlus trigParamNoType trigB64Item,
     validly encoded?]` -/
 def rfc : Handler := fun args => do
   let u ← argChars args 0
   let tr : Bytes := boolBytes (S.trigPlus u) ++ boolBytes (S.trigParamNoType u) ++ boolBytes (S.trigB64Item u)
-    ++ boolBytes (S.trigTextPlainPrefix u)
   match S.rfcParse u with
   | none => .ok (listReply [boolBytes false, [], [], [], tr, boolBytes false])
   | some (mt, d) => .ok (listReply [boolBytes true, cb mt, normBytes (S.mtNorm mt), cb d, tr,
@@ -54,12 +52,11 @@ def mediatype : Handler := fun args => do
   let b ← argChars args 0
   .ok (cb (M.mediatype b))
 
-/-- `spec.c18.mediatype b out` → `[specMediatype b, out allowed?, quotes closed?, trigQuoteShift, trigBackslash]` -/
+/-- `spec.c18.mediatype b out` → `[specMediatype b, out allowed?, quotes closed?]` -/
 def specMt : Handler := fun args => do
   let b ← argChars args 0
   let out ← argChars args 1
-  .ok (listReply [cb (S.specMediatype b), boolBytes (S.specMediatypeOK 0 b out), boolBytes (S.quotesClosed b),
-    boolBytes (S.trigQuoteShift b), boolBytes (S.trigBackslash b)])
+  .ok (listReply [cb (S.specMediatype b), boolBytes (S.specMediatypeOK 0 b out), boolBytes (S.quotesClosed b)])
 
 def optReply (o : Option (List Char)) : Bytes :=
   match o with
